@@ -175,6 +175,37 @@ def strings(k):
             yield "".join(t)
 
 
+def harvested_payloads():
+    """string constants, marker-like fragments and helper names taken from the first-party modules that build
+    or run the generated code: a literal that happens to contain one of the generator's own placeholders /
+    fragments must still be inert"""
+    import importlib
+    import inspect
+    import re
+
+    out = set()
+    for m in ("pyab_experiment.codegen.python.python_generator", "pyab_experiment.codegen.python", "pyab_experiment.codegen",
+              "pyab_experiment.experiment_evaluator", "pyab_experiment.utils.wraper_functions", "pyab_experiment.binning.binning"):
+        try:
+            src = inspect.getsource(importlib.import_module(m))
+        except (ImportError, OSError, TypeError):
+            continue
+        try:
+            tree = pyast.parse(src)
+        except SyntaxError:
+            continue
+        for node in pyast.walk(tree):
+            if isinstance(node, pyast.Constant) and isinstance(node.value, str) and 1 < len(node.value) <= 60 and "\n" not in node.value:
+                out.add(node.value.strip())
+                out.update(x for x in re.findall(r"[@%$<{\[]{1,2}[A-Za-z_]{2,24}[@%$>}\]]{1,2}", node.value))
+        out.update(re.findall(r"[@%$<{]{1,2}[A-Z_]{2,24}[@%$>}]{1,2}", src))
+    res = []
+    for x in sorted(out):
+        if x and not ('"' in x and "'" in x):
+            res += [x, f"x{x}y", f"{x}'+str({S}())+'"]
+    return res[:900]
+
+
 def long_payloads(tier):
     """long literals (line-wrapping / chunking logic) with an escape-needing character at every offset of a
     window, and payloads behind every character Python's tokenizer treats as a line end"""
@@ -193,7 +224,7 @@ def long_payloads(tier):
 
 def run(res, tier):
     k = 3 if tier == "quick" else 4
-    units = list(dict.fromkeys(PAYLOADS + long_payloads(tier) + list(strings(k))))
+    units = list(dict.fromkeys(PAYLOADS + long_payloads(tier) + harvested_payloads() + list(strings(k))))
     for w in pmap(_work, permuted(units, "c13"), chunk=8):
         res.merge_worker(w)
     res.set("states", res.cov.get("programs", 0))
